@@ -74,6 +74,10 @@ func backSlice(v ssa.Value, visit func(ssa.Value) bool) {
 				for _, a := range y.Call.Args {
 					walk(a)
 				}
+			} else if y.Call.IsInvoke() && y.Call.Method.Name() == "ParentNode" {
+				walk(y.Call.Value)
+			} else if f != nil && f.Name() == "ParentNode" && len(y.Call.Args) > 0 {
+				walk(y.Call.Args[0])
 			}
 		}
 	}
